@@ -13,7 +13,7 @@ ASSUMPTIONS = ['the reference decoder oracle/c3dref.py follows only the file\'s 
 
 def jobs(tier, seed):
     out = []
-    for j in c01.jobs(tier, seed):
+    for j in [x for x in c01.jobs(tier, seed) if x.get('name') != 'hist']:
         if j['cfg']['symnames']: continue
         cfg = dict(j['cfg'])
         if cfg['pad'] >= 0: continue
